@@ -1,7 +1,9 @@
 (* C05 - CPU occupancy: one running thread per physical CPU; CPU rows mirror threads. *)
 From Coq Require Import ZArith List Bool.
+From OV Require Import Emu.GuardsPre.
 From OV Require Import Emu.EmuCoreDefs Emu.ThreadSpecDefs Proofs.EmitProofs Proofs.EmuCoreProofs
   Proofs.ThreadCpuProofs Proofs.EmuCoreWf.
+From OV Require Gen.Guards_gen Proofs.GuardsProofs Emu.DecodeDefs.
 Import ListNotations.
 Local Open Scope Z_scope.
 
@@ -52,3 +54,55 @@ Proof. vm_compute. reflexivity. Qed.
 Example C05_ex_remote_oversub :
   emu_accepts sx3 [(0%nat, Execute 0); (1%nat, Execute (-1)); (0%nat, AffRemote 0 8)] = false.
 Proof. vm_compute. reflexivity. Qed.
+
+(* ---------------------------------------------------------------------------------------------
+   The tie to the source (see Properties_C04.v): Gen/Guards_gen.v is regenerated on every run from
+   src/emu/ovni/event.c and src/emu/cpu.c. *)
+
+(* pre_affinity_set and pre_affinity_remote generated from the source = oh_step on AffSet / AffRemote
+   (the hand model's `migrate` = the generated cpu_migrate_thread, itself translated from cpu.c, then
+   thread_migrate_cpu) *)
+Theorem C05_affinity_from_source : forall sx st who th me,
+  nth_error (threads st) who = Some th -> nth_error (s_threads sx) who = Some me ->
+  GuardsProofs.GInv sx st -> t_ooc th = false ->
+  forall e, e_who e = who ->
+  outcome_of (exec (Guards_gen.pre_affinity_set e) sx st) =
+  outcome_of (if Nat.eqb (length (e_payload e)) 4 then oh_step sx st who (AffSet (pl_i32 (e_payload e) 0))
+              else Err E_PAYLOAD) /\
+  outcome_of (exec (Guards_gen.pre_affinity_remote e) sx st) =
+  outcome_of (if Nat.eqb (length (e_payload e)) 8
+              then oh_step sx st who (AffRemote (pl_i32 (e_payload e) 0) (pl_i32 (e_payload e) 4))
+              else Err E_PAYLOAD).
+Proof. exact GuardsProofs.affinity_handlers_eq. Qed.
+Print Assumptions C05_affinity_from_source.
+
+(* the dispatcher model_ovni_event -> pre_affinity generated from the source = decoder + handler of the model *)
+Theorem C05_dispatch_from_source : forall sx st who th me cs v p,
+  nth_error (threads st) who = Some th -> nth_error (s_threads sx) who = Some me -> GuardsProofs.GInv sx st ->
+  outcome_of (exec (Guards_gen.model_ovni_event (GuardsProofs.mk_emu who 65 v p)) sx st) =
+  outcome_of (GuardsProofs.fst_res (core_step sx st who (DecodeDefs.decode_ovni cs 65 v p))).
+Proof. exact (fun sx st who th me cs v p Hth Hme HI => GuardsProofs.dispatch_eq sx st who th me cs 65 v p Hth Hme HI (or_intror eq_refl)). Qed.
+Print Assumptions C05_dispatch_from_source.
+
+(* the invariant the two theorems assume holds in every state reached by accepted thread/affinity events *)
+Theorem C05_invariant_reached : forall sx h st,
+  oh_run sx (init sx) h = Ok st -> GuardsProofs.GInv sx st.
+Proof. exact GuardsProofs.GInv_reached. Qed.
+Print Assumptions C05_invariant_reached.
+
+(* the generated handlers evaluated: thread 1 on the virtual CPU moves itself to the physical one (accepted, lists
+   updated); a remote move of thread 0 next to it is refused (oversubscription); moving a thread to the CPU it is on
+   by OAr is refused *)
+Example C05_ex_generated :
+  match GuardsProofs.gen_run sx3 (init sx3)
+          [(0%nat, 72, 120, GuardsProofs.i32le (-1)); (1%nat, 72, 120, GuardsProofs.i32le (-1)); (1%nat, 65, 115, GuardsProofs.i32le 0)] with
+  | Ok st => cpu_threads st
+  | Err _ => []
+  end = [[1%nat]; [0%nat]] /\
+  outcome_of (GuardsProofs.gen_run sx3 (init sx3)
+                [(0%nat, 72, 120, GuardsProofs.i32le (-1)); (1%nat, 72, 120, GuardsProofs.i32le 0);
+                 (1%nat, 65, 114, GuardsProofs.i32le 0 ++ GuardsProofs.i32le 7)]) = Reject /\
+  outcome_of (GuardsProofs.gen_run sx3 (init sx3)
+                [(0%nat, 72, 120, GuardsProofs.i32le (-1)); (1%nat, 72, 120, GuardsProofs.i32le 0);
+                 (1%nat, 65, 114, GuardsProofs.i32le (-1) ++ GuardsProofs.i32le 7)]) = Reject.
+Proof. vm_compute. repeat split. Qed.
